@@ -272,6 +272,27 @@ class DictV(V):
     items: tuple = ()   # ((key V, value V), ...)
 
 
+def slots_in(v, out=None, depth: int = 0) -> list:
+    """every SlotP (render call) reachable inside a value"""
+    if out is None:
+        out = []
+    if depth > 12:
+        return out
+    if isinstance(v, SlotP):
+        out.append(v)
+    elif isinstance(v, (tuple, list)):
+        for i in v:
+            slots_in(i, out, depth + 1)
+    elif isinstance(v, CtxV):
+        pass
+    elif hasattr(v, "__dataclass_fields__"):
+        for n in v.__dataclass_fields__:
+            if n in ("src", "ctx", "cond", "source", "filt"):
+                continue
+            slots_in(getattr(v, n), out, depth + 1)
+    return out
+
+
 # ----------------------------------------------------------------------------- pretty printer
 def show(v, depth: int = 0) -> str:
     if depth > 8:
@@ -442,6 +463,7 @@ class Evaluator:
         self.p = program
         self.inline_self = inline_self
         self.idx = 0
+        self.eager: list = []   # (SlotP, construct, src): render calls evaluated whose result may be thrown away
         self.stack: list[FuncInfo] = []
         self.max_depth = max_depth
         self.notes: list = []        # diagnostics: writes seen inside renderers, etc.
@@ -718,7 +740,10 @@ class Evaluator:
             base = self.eval(e.func.value, fr)
             if not isinstance(base, (ListV, DictV)):
                 self.notes.append(("write", self.src(fr, e), ast.unparse(e)))
-        self.eval(e, fr)
+        v = self.eval(e, fr)
+        if isinstance(v, Str):
+            for sp in slots_in(v):
+                self.eager.append((sp, "expression statement", self.src(fr, e)))
 
     def assign(self, t, v, fr: Frame, st):
         if isinstance(t, ast.Name):
@@ -1244,6 +1269,37 @@ class Evaluator:
     def e_SetComp(self, e, fr):
         return self._comp(e, fr, "set")
 
+    def e_DictComp(self, e, fr):
+        if len(e.generators) != 1:
+            self.unsupported(e, fr, "multi-generator comprehension")
+        g = e.generators[0]
+        it = self.eval(g.iter, fr)
+        saved = dict(fr.env)
+        self.assign(g.target, Sym("elem", (it,)), fr, e)
+        filt = conj([self.eval(c, fr) for c in g.ifs]) if g.ifs else None
+        k = self.eval(e.key, fr)
+        v = self.eval(e.value, fr)
+        fr.env = saved
+        return Sym("dictcomp", (k, v, it, filt))
+
+    def dict_get(self, base, key, default, fr, e):
+        if isinstance(base, Phi):
+            return self.merge(base.cond, self.dict_get(base.a, key, default, fr, e), self.dict_get(base.b, key, default, fr, e))
+        if isinstance(base, DictV):
+            result = default
+            conc = self.concrete(key)
+            if conc is not _NO:
+                for k, v in base.items:
+                    if self.concrete(k) == conc:
+                        return v
+                return default
+            for k, v in reversed(base.items):
+                result = self.merge(Sym("op", ("==", key, k)), v, result)
+            return result
+        if isinstance(base, Sym) and base.kind == "dictcomp":
+            return self.merge(Sym("op", ("in", key, base)), base.args[1], default)
+        return None
+
     def e_Starred(self, e, fr):
         return Sym("starred", (self.eval(e.value, fr),))
 
@@ -1326,6 +1382,9 @@ class Evaluator:
 
     def call_builtin(self, name, args, kwargs, e, fr):
         a0 = args[0] if args else None
+        if (name == "getattr" and len(args) == 3) or (name == "next" and len(args) == 2):
+            for sp in slots_in(args[-1]):
+                self.eager.append((sp, f"default of {name}()", self.src(fr, e)))
         if name == "str":
             if isinstance(a0, (Str,)):
                 return a0
@@ -1504,6 +1563,8 @@ class Evaluator:
         return Sym("op", ("isinstance", v, spec))
 
     def call_attr(self, base, m: str, e: ast.Call, fr: Frame):
+        if isinstance(base, Phi) and m in ("get", "pop", "setdefault") and not isinstance(base.a, CtxV):
+            return self._call_attr(base, m, e, fr)
         if isinstance(base, Phi) and not isinstance(base.a, CtxV) and (
                 self.as_str_or_none(base.a) is not None or self.as_str_or_none(base.b) is not None
                 or isinstance(base.a, (DictV, Phi, LambdaV)) or isinstance(base.b, (DictV, Phi, LambdaV))):
@@ -1565,20 +1626,21 @@ class Evaluator:
                 args, kwargs = self.eval_args(e, fr)
                 return self.call_function(hf, cc, base, args, kwargs, self.src(fr, e))
         # ---- dict.get on constant tables
-        if isinstance(base, DictV) and m == "get":
+        if m in ("get", "pop", "setdefault") and len(e.args) == 2 and not e.keywords and not isinstance(base, (Obj, ClassRef, CtxV)):
+            # the default of a lookup is evaluated whether or not it is used: render calls inside it are recorded
             args, _ = self.eval_args(e, fr)
-            key = args[0]
-            default = args[1] if len(args) > 1 else Const(None)
-            result = default
-            conc = self.concrete(key)
-            if conc is not _NO:
-                for k, v in base.items:
-                    if self.concrete(k) == conc:
-                        return v
-                return default
-            for k, v in reversed(base.items):
-                result = self.merge(Sym("op", ("==", key, k)), v, result)
-            return result
+            for sp in slots_in(args[1]):
+                self.eager.append((sp, f"default of .{m}()", self.src(fr, e)))
+            if m == "get":
+                r = self.dict_get(base, args[0], args[1], fr, e)
+                if r is not None:
+                    return r
+            return Sym("call", ("." + m, base) + tuple(args))
+        if isinstance(base, (DictV, Phi)) and m == "get" and e.args:
+            args, _ = self.eval_args(e, fr)
+            r = self.dict_get(base, args[0], args[1] if len(args) > 1 else Const(None), fr, e)
+            if r is not None:
+                return r
         # ---- local list methods used as expressions
         if isinstance(base, ListV) and m in ("copy",):
             return base
